@@ -135,6 +135,24 @@ func (e *c15Expr) bare() (int, bool) {
 type c15Sym struct {
 	name   string    // as written: 'a', error, N1, S0; "" for an inline set
 	inline *c15Expr  // inline set(...)
+	la     []c15La   // lookahead predicate (?= N & !M)
+}
+
+type c15La struct {
+	name string
+	neg  bool
+}
+
+func c15LaText(la []c15La) string {
+	var parts []string
+	for _, p := range la {
+		if p.neg {
+			parts = append(parts, "!"+p.name)
+		} else {
+			parts = append(parts, p.name)
+		}
+	}
+	return "(?= " + strings.Join(parts, " & ") + ")"
 }
 
 type c15Gram struct {
@@ -201,6 +219,8 @@ func (g *c15Gram) tm() string {
 				}
 				if s.inline != nil {
 					fmt.Fprintf(&sb, "set(%s)", s.inline.text(g.names))
+				} else if s.la != nil {
+					sb.WriteString(c15LaText(s.la))
 				} else {
 					sb.WriteString(s.name)
 				}
@@ -220,6 +240,8 @@ func c15AltText(g *c15Gram, alt []c15Sym) string {
 	for _, s := range alt {
 		if s.inline != nil {
 			parts = append(parts, "set("+s.inline.text(g.names)+")")
+		} else if s.la != nil {
+			parts = append(parts, c15LaText(s.la))
 		} else {
 			parts = append(parts, s.name)
 		}
@@ -244,6 +266,7 @@ type c15Gen struct {
 	banRef   map[int]bool // named sets that must not be referenced (inline sets: [C15-inline-recursive-crash])
 	noRefs   bool         // no references to named sets at all
 	noInline bool         // no inline sets
+	noLa     bool         // no lookahead predicates (they are extracted into nonterminals as well)
 }
 
 func (x *c15Gen) leaf() *c15Expr {
@@ -357,6 +380,7 @@ func c15GenGram(r *rand.Rand, name string, cfg c15Cfg) *c15Gram {
 			x.noRefs = true
 		} else {
 			x.noInline = true
+			x.noLa = true
 		}
 	}
 	nt := 2 + r.Intn(5)
@@ -447,6 +471,23 @@ func c15GenGram(r *rand.Rand, name string, cfg c15Cfg) *c15Gram {
 		na := 1 + r.Intn(3)
 		for a := 0; a < na; a++ {
 			var alt []c15Sym
+			if !x.noLa && nn >= 3 && r.Intn(100) < 12 {
+				// runtime lookahead predicate; its targets are preferably nonterminals that nothing else reaches
+				pick := func() string {
+					if reach < nn && r.Intn(10) < 7 {
+						return g.nts[reach+r.Intn(nn-reach)]
+					}
+					return g.nts[r.Intn(nn)]
+				}
+				t1 := pick()
+				la := []c15La{{t1, r.Intn(2) == 0}}
+				if r.Intn(3) == 0 {
+					if t2 := pick(); t2 != t1 {
+						la = append(la, c15La{t2, r.Intn(2) == 0})
+					}
+				}
+				alt = append(alt, c15Sym{la: la})
+			}
 			l := r.Intn(5)
 			if r.Intn(100) < nullBias {
 				l = 0
@@ -634,6 +675,8 @@ func c15Case(g *c15Gram, run *c15Run) (line, answer string, ok bool, why string)
 	var rhs [][]int
 	var inputs []string
 	setNtSym := map[int]int{} // symbol -> set index
+	laSym := map[int][]int{}  // lookahead nonterminal -> nonterminals of its predicate
+	var laRules []int         // lookahead nonterminals in order of first use (each has the rule L -> ε)
 	if run.complErr || len(run.lhs) == 0 {
 		if !run.complErr {
 			return "", "", false, "compile failed: " + strings.Join(run.errs, " | ")
@@ -676,6 +719,15 @@ func c15Case(g *c15Gram, run *c15Run) (line, answer string, ok bool, why string)
 					if s.inline != nil {
 						setNtSym[n] = len(sets)
 						sets = append(sets, setEnt{s.inline, "", n})
+						r = append(r, n)
+						n++
+					} else if s.la != nil {
+						var ts []int
+						for _, p := range s.la {
+							ts = append(ts, m[p.name])
+						}
+						laSym[n] = ts
+						laRules = append(laRules, n)
 						r = append(r, n)
 						n++
 					} else {
@@ -736,6 +788,22 @@ func c15Case(g *c15Gram, run *c15Run) (line, answer string, ok bool, why string)
 							setNtSym[cr[p]] = len(sets)
 							sets = append(sets, setEnt{s.inline, "", cr[p]})
 						}
+					} else if s.la != nil {
+						if cr[p] < nTerms || !strings.HasPrefix(run.symNames[cr[p]], "lookahead_") {
+							return "", "", false, "lookahead not extracted"
+						}
+						if _, seen := laSym[cr[p]]; !seen {
+							var ts []int
+							for _, q := range s.la {
+								v, ok := lookup(q.name)
+								if !ok {
+									return "", "", false, "lookahead target missing"
+								}
+								ts = append(ts, v)
+							}
+							laSym[cr[p]] = ts
+							laRules = append(laRules, cr[p])
+						}
 					} else if v, _ := lookup(s.name); v != cr[p] {
 						return "", "", false, "rule differs"
 					}
@@ -749,6 +817,12 @@ func c15Case(g *c15Gram, run *c15Run) (line, answer string, ok bool, why string)
 			if _, isSet := setNtSym[l]; isSet {
 				continue
 			}
+			if _, isLa := laSym[l]; isLa {
+				if len(run.rhs[i]) != 0 {
+					return "", "", false, "lookahead nonterminal with a non-empty rule"
+				}
+				continue
+			}
 			found := false
 			for _, x := range g.nts {
 				if v, _ := lookup(x); v == l {
@@ -760,6 +834,10 @@ func c15Case(g *c15Gram, run *c15Run) (line, answer string, ok bool, why string)
 			}
 		}
 		inputs = run.inputs
+	}
+	for _, l := range laRules {
+		lhs = append(lhs, l)
+		rhs = append(rhs, nil)
 	}
 	// protocol
 	var rs []string
@@ -792,7 +870,19 @@ func c15Case(g *c15Gram, run *c15Run) (line, answer string, ok bool, why string)
 		}
 	}
 	zero := make([]int, len(lhs))
-	line = fmt.Sprintf("sets %d %d %s %s _ %s %s %s %s", nTerms, nSyms-nTerms, rsS, strings.Join(inputs, ";"), ints(zero), snS, strings.Join(es, ";"), ints(obs))
+	laS := "-"
+	if len(laRules) > 0 {
+		var ls []string
+		for _, l := range laRules {
+			var ts []string
+			for _, t := range laSym[l] {
+				ts = append(ts, strconv.Itoa(t))
+			}
+			ls = append(ls, fmt.Sprintf("%d:%s", l, strings.Join(ts, "+")))
+		}
+		laS = strings.Join(ls, ",")
+	}
+	line = fmt.Sprintf("sets %d %d %s %s _ %s %s %s %s %s", nTerms, nSyms-nTerms, rsS, strings.Join(inputs, ";"), ints(zero), snS, strings.Join(es, ";"), ints(obs), laS)
 	if run.complErr {
 		return line, "error", true, ""
 	}
@@ -840,7 +930,8 @@ func c15ProbeSet(body, name string) ([]int, []string) {
 func c15(c *Ctx) {
 	findings := os.Getenv("VERIF_FINDINGS") != ""
 	c.Rule = "random .tm grammars: 2-6 terminals (+ error/invalid_token in 35%), 2-6 ordinary nonterminals with 1-3 alternatives of 0-4 symbols (terminals, nonterminals, set nonterminals, " +
-		"inline set(...), error; empty alternatives with bias 5/15/35% for nullable chains; in a third of the grammars a block of nonterminals unreachable from the inputs), 0-2 set nonterminals `S : set(e);`, " +
+		"inline set(...), error; 12% of the alternatives start with a runtime lookahead predicate (?= N), (?= !N), (?= N & !M) whose targets are mostly nonterminals reachable through no rule " +
+		"(so that they and the symbols used only inside them are reachable ONLY through the predicate, negated or not); empty alternatives with bias 5/15/35% for nullable chains; in a third of the grammars a block of nonterminals unreachable from the inputs), 0-2 set nonterminals `S : set(e);`, " +
 		"1-3 inputs with random no-eoi flags (the first eoi input is not always the first; sometimes none), 1-5 `%generate g = set(e)` and 0-2 `%assert`; expressions of depth <= 3 over " +
 		"any/first/last/precede/follow of terminals, nonterminals, set nonterminals, error, eoi, named sets (also later ones and themselves: mutual recursion), `|`, `&`, `~`, redundant parentheses, " +
 		"printed with the precedence of the tm grammar. Compiled by the real compiler.Compile (+ gen.Generate when there is no diagnostic); LALR conflicts are ignored (sets are resolved before the tables). " +
@@ -950,6 +1041,9 @@ func c15(c *Ctx) {
 		}
 		if g.recovering {
 			c.Count("with error token (afterErr)")
+		}
+		if strings.Contains(text, "(?=") {
+			c.Count("with lookahead predicates")
 		}
 		c.Debugf("%s", strings.ReplaceAll(text, "\n", "\\n"))
 		c.Case(line, ans, key)
